@@ -132,6 +132,14 @@ CopyVec(S, src, s) ==
                 !.kind[o] = S.kind[src], !.nullable[o] = S.nullable[src], !.name[o] = S.name[src],
                 !.uown = @ \cup {o}, !.reg = Register(S.reg, o, s)], "Ok")
 
+(* w = v << []  (also v << Vector([])): CPython returns the SAME tuple for t + (), so the result is a
+   new vector over v's own storage - sharing that does not come from a caller-supplied tuple        *)
+ConcatEmpty(S, src) ==
+  LET o == SetMin(DeadObjs(S)) IN
+  Out([S EXCEPT !.live = @ \cup {o}, !.held[o] = TRUE, !.store[o] = S.store[src],
+                !.kind[o] = S.kind[src], !.nullable[o] = S.nullable[src],
+                !.uown = @ \cup {o}, !.reg = Register(S.reg, o, S.store[src])], "Ok")
+
 Drop(S, o) == Out([S EXCEPT !.held[o] = FALSE], "Ok")
 
 Writable(S, o) == Cardinality(S.reg[S.store[o]] \cap S.live) <= 1
